@@ -20,4 +20,9 @@ theorem tie_shutdownFlagUnderLock : Generated.shutdownFlagUnderLock ≠ 0 := by 
     model's `serveRecv` merges the count and the start; a count taken by the new goroutine itself would not be it) -/
 theorem tie_activeAddBeforeGo : Generated.activeAddBeforeGo ≠ 0 := by decide
 
+/-- `Serve` tests the shutdown flag inside the critical section in which it registers its listener and counts itself:
+    the model's `serveEnter` is one step (a test before the lock lets Shutdown close the listeners in between; the
+    listener registered afterwards is never closed and that Serve call never returns) -/
+theorem tie_serveFlagUnderLock : Generated.serveFlagUnderLock ≠ 0 := by decide
+
 end RV.Facts.C07
